@@ -8,8 +8,9 @@ VERIF = os.path.dirname(os.path.dirname(os.path.abspath(__file__)))
 REPO = os.environ.get('VERIF_REPO', '/repo')
 PY = '/venv/bin/python'
 CACHE = os.path.join(VERIF, '.cache')
-EVIDENCE = os.path.join(VERIF, 'evidence')
-REPLAYS = os.path.join(VERIF, 'replays')
+# evidence/ describes runs against /repo itself; runs against a scratch tree (seeded changes, mutants) write elsewhere
+EVIDENCE = os.path.join(VERIF, 'evidence') if os.path.abspath(REPO) == '/repo' else os.path.join(CACHE, 'evidence-scratch')
+REPLAYS = os.path.join(VERIF, 'replays') if os.path.abspath(REPO) == '/repo' else os.path.join(CACHE, 'replays-scratch')
 NCPU = int(os.environ.get('VERIF_JOBS', str(os.cpu_count() or 4)))
 
 
